@@ -471,8 +471,15 @@ func (fv *FnV) evalExternal(st *State, call *ast.CallExpr, o *types.Func) []Val 
 		fv.tag("no-nan")
 		return []Val{{"false", types.Typ[types.Bool]}}
 	case "math.IsInf":
+		// infinities are the two huge uninterpreted constants that math.Inf / negInf / posInf denote; a value is
+		// infinite exactly when it equals one of them (arithmetic is assumed not to produce them)
 		fv.tag("no-inf-from-arithmetic")
-		return []Val{{"false", types.Typ[types.Bool]}}
+		fv.tag("inf-as-huge-real")
+		fv.smt.declareFun("G_posInf", "(declare-const G_posInf Real)")
+		fv.smt.declareFun("ax_posInf", "(assert (> G_posInf 1000000000000000000000000000000000000000000000000000000000000000000000000000000000000000000000000000000000000000000000000000000000000000000000000000000000000000000000000000000000000000000000000000000000000000000000000000000000000000000000000000000000000000000000000000000000000000000000000000000000000.0))")
+		fv.smt.declareFun("G_negInf", "(declare-const G_negInf Real)")
+		fv.smt.declareFun("ax_negInf", "(assert (< G_negInf (- 1000000000000000000000000000000000000000000000000000000000000000000000000000000000000000000000000000000000000000000000000000000000000000000000000000000000000000000000000000000000000000000000000000000000000000000000000000000000000000000000000000000000000000000000000000000000000000000000000000000000000.0)))")
+		return []Val{{fmt.Sprintf("(or (and (>= %s 0) (= %s G_posInf)) (and (<= %s 0) (= %s G_negInf)))", a(1), a(0), a(1), a(0)), types.Typ[types.Bool]}}
 	case "math.Inf":
 		fv.tag("inf-as-huge-real")
 		fv.smt.declareFun("G_posInf", "(declare-const G_posInf Real)")
@@ -537,6 +544,11 @@ func (fv *FnV) evalExternal(st *State, call *ast.CallExpr, o *types.Func) []Val 
 			// the sorted slice is a permutation: every element comes from the original
 			st.assume(fmt.Sprintf("(forall ((j!q Int)) (! (=> (and (<= 0 j!q) (< j!q %s)) (exists ((k!q Int)) (and (<= 0 k!q) (< k!q %s) (= (select %s j!q) (select %s k!q))))) :pattern ((select %s j!q))))", ln, ln, b, arrT, b))
 			fv.assign(st, call.Args[0], fv.mkSlice(t, lenT, b, nilT))
+			if full == "sort.Slice" || full == "sort.SliceStable" {
+				if fl, ok := ast.Unparen(call.Args[1]).(*ast.FuncLit); ok {
+					fv.sortedBy(st, fl, ln)
+				}
+			}
 		}
 		return nil
 	case "fmt.Errorf", "errors.New":
@@ -1152,4 +1164,39 @@ func selectPatterns(body, bv string) string {
 		}
 	}
 	return strings.Join(pats, " ")
+}
+
+// sortedBy: after sort.Slice(x, less) no element is less than its predecessor.  The comparator literal is
+// evaluated symbolically on the sorted slice for the index pair (j+1, j) with j a bound variable; the fact is
+// only assumed when that evaluation is a pure term (no fresh constants were needed).
+func (fv *FnV) sortedBy(st *State, fl *ast.FuncLit, n string) {
+	sig, ok := fv.prog.Info.Types[fl].Type.(*types.Signature)
+	if !ok || sig.Params().Len() != 2 || sig.Results().Len() != 1 {
+		return
+	}
+	fv.nfresh++
+	j := fmt.Sprintf("j!s%d", fv.nfresh)
+	st2 := st.clone()
+	saveName, nd, nOut := fv.noName, len(fv.decls), len(fv.outside)
+	fv.noOblige++
+	fv.noName = true
+	fd := &ast.FuncDecl{Name: ast.NewIdent("less"), Type: fl.Type, Body: fl.Body}
+	intT := types.Typ[types.Int]
+	args := []argInfo{{val: Val{fmt.Sprintf("(+ %s 1)", j), intT}}, {val: Val{j, intT}}}
+	out := fv.inlineCall(st2, nil, "sort.less", fd, sig, args, nil)
+	fv.noOblige--
+	fv.noName = saveName
+	delete(fv.inlined, "sort.less")
+	pure := !st2.dead && len(out) == 1 && len(fv.outside) == nOut
+	for _, d := range fv.decls[nd:] {
+		if strings.HasPrefix(d, "(declare-const") {
+			pure = false
+		}
+	}
+	if !pure {
+		fv.tag("sort-order-not-modelled")
+		return
+	}
+	fv.tag("sort-orders-by-comparator")
+	st.assume(fmt.Sprintf("(forall ((%s Int)) (=> (and (<= 0 %s) (< (+ %s 1) %s)) (not %s)))", j, j, j, n, out[0].T))
 }
